@@ -21,7 +21,7 @@ import (
 
 // C08 — source-side caches are transparent: same data, bounded reuse, no cached errors.
 //
-// Workloads (case index modulo 8):
+// Workloads ((case index + index/16) modulo 8):
 //   0..3 seq        sequential Get sequences over few keys (two of them "many keys": five-segment rule)
 //   4,5  conc       concurrent Get mixes, 2..12 goroutines
 //   6    head-seq   Latest against a scripted head (growth, repeats, regressions), poller idle (1 h)
@@ -35,7 +35,7 @@ func init() {
 		ID:        "C08",
 		Level:     "exploration",
 		Technique: "model-free cache monitor: real caching client against the simulated node; per-call comparison with chain ground truth and with an uncached client; fetch/fault/announcement accounting from the node's request record; real goroutines for the concurrent mixes",
-		Rule: "case i runs workload i mod 8 (seq x4, conc x2, head-seq, head-poll) with maxreads 1..6 drawn per case; seq: 30-60 Get calls over 1-3 keys (or 7-9 keys for the five-segment rule) x call shapes {h, b, l+h and l+b with 5 address/topic filters, b+r, b+t}, faults (rpc-error, http-status, cut, truncate) injected into ~15% of segment or log/receipt/trace fetches; " +
+		Rule: "case i runs workload (i + i/16) mod 8 (seq x4, conc x2, head-seq, head-poll) with maxreads 1..6 drawn per case; seq: 30-60 Get calls over 1-3 keys (or 7-9 keys for the five-segment rule) x call shapes {h, b, l+h and l+b with 5 address/topic filters, b+r, b+t}, faults (rpc-error, http-status, cut, truncate) injected into ~15% of segment or log/receipt/trace fetches; " +
 			"conc: 2-12 goroutines x 2-5 calls over same/overlapping ranges and different filters on shared segments, faults by request ordinal; head-seq: 40-70 steps of grow/reorg/repeat/Latest(n below/at/above/0) with faults on direct fetches; head-poll: 1-4 goroutines calling Latest while the chain grows/reorgs and the 2 ms poller is failed and reset. " +
 			"Signature = (workload, maxreads, fault kinds hit, shapes used, outcome classes); trivial = a case without a single cache hit.",
 		Assumptions: []string{
@@ -481,7 +481,8 @@ func c08MatchingView(chain *simnode.Chain, sh *c08Shape, snap []c08Blk) []string
 // ---------------------------------------------------------------- driver
 
 func c08Run(c *vk.Case) {
-	switch c.Index % 8 {
+	// (the i/16 term spreads every workload over all worker shards)
+	switch (c.Index + c.Index/16) % 8 {
 	case 0, 1:
 		c08RunSeq(c, false)
 	case 2, 3:
@@ -1254,6 +1255,7 @@ func c08RunHeadPoll(c *vk.Case) {
 	case <-time.After(60 * time.Second):
 		c.Inconclusive("head-poll callers did not finish within 60 s")
 		close(stopChain)
+		<-chainDone
 		return
 	}
 	<-chainDone
@@ -1274,29 +1276,30 @@ func c08RunHeadPoll(c *vk.Case) {
 		}
 		return
 	}
-	waitFor := func(cond func() bool, what string) bool {
-		deadline := time.Now().Add(20 * time.Second)
+	waitFor := func(cond func() bool, what string, poke bool) bool {
+		deadline := time.Now().Add(10 * time.Second)
 		for !cond() {
 			if time.Now().After(deadline) {
-				c.Inconclusive("head-poll: %s did not happen within 20 s", what)
+				c.Inconclusive("head-poll: %s did not happen within 10 s", what)
 				return false
+			}
+			if poke {
+				call(floor(2)) // a further failed poll needs a further reset
 			}
 			time.Sleep(time.Millisecond)
 		}
 		return true
 	}
-	if !waitFor(func() bool { f, _ := pollState(); return f }, "the failed poll") {
-		return
-	}
-	time.Sleep(5 * time.Millisecond) // let the poller goroutine record its error (pacing only)
-	for i := 0; i < 3; i++ {
-		call(floor(2))
-	}
-	if !waitFor(func() bool { _, n := pollState(); return n > 0 }, "a poll by the restarted poller") {
-		return
-	}
-	for i := 0; i < 3; i++ {
-		call(floor(2))
+	if waitFor(func() bool { f, _ := pollState(); return f }, "the failed poll", false) {
+		time.Sleep(5 * time.Millisecond) // let the poller goroutine record its error (pacing only)
+		for i := 0; i < 3; i++ {
+			call(floor(2))
+		}
+		if waitFor(func() bool { _, n := pollState(); return n > 0 }, "a poll by the restarted poller", true) {
+			for i := 0; i < 3; i++ {
+				call(floor(2))
+			}
+		}
 	}
 	// accounting
 	resets, asks := 0, 0
